@@ -300,6 +300,7 @@ impl<E: FieldElement> OpFlags<E> {
             + adv_popw_expacc
             + swapwx_flag
             + ext2mul_flag
+            + degree7_op_flags[9] // CALLER
             + degree4_op_flags[0];
 
         no_shift_flags[5] = no_shift_flags[4] + mov4_flag;
